@@ -137,6 +137,69 @@ class Ref:
         return min(k) if k else math.inf
 
 
+ARRAY_KINDS = ("tensor", "scanvec", "vmap")
+ARRAY_LEAVES = {"tensor": ["x", "y", "z"], "scanvec": ["x", "y"], "vmap": ["x", "y"]}
+
+
+def _np_logpdf(dist, v, loc, sc):
+    if dist == "normal":
+        z = (v - loc) / sc
+        return -0.5 * z * z - math.log(sc) - 0.5 * math.log(2.0 * math.pi)
+    return -np.abs(v - loc) / sc - math.log(2.0 * sc)  # laplace
+
+
+def array_locs(case, vals, arg):
+    """location parameter of every leaf (numpy float64, same shape as the leaf) given all values"""
+    m = case["arr"]
+    n, k = m["shape"]
+    ii, jj = np.meshgrid(np.arange(n), np.arange(k), indexing="ij")
+    x, kind = vals["x"], case["kind"]
+    if kind == "tensor":
+        return {"x": m["b"] + m["a"] * arg + m["d"] * (ii - jj), "y": m["c"] * x, "z": np.asarray(m["w"] * x.sum())}
+    if kind == "vmap":
+        return {"x": arg + m["d"] * (ii - jj), "y": m["c"] * x}
+    prev = np.vstack([arg + 0.25 * np.arange(k), x[:-1]])  # scanvec: carry-in of every step
+    return {"x": m["a"] * prev + m["b"], "y": m["c"] * x}
+
+
+ARRAY_SCALES = {"x": "s1", "y": "s2", "z": "s3"}
+
+
+class ArrayRef:
+    """reference log density for the models with matrix-valued leaves; z = the selected leaves
+    flattened row-major and concatenated in the order x, y, z"""
+
+    def __init__(self, case, arg, base_vals):
+        self.case, self.arg = case, arg
+        self.base = base_vals  # dict leaf name -> float64 array
+        self.sel = case["select"]
+
+    def assemble(self, z):
+        vals, off, z = dict(self.base), 0, np.asarray(z, dtype=np.float64)
+        for name in self.sel:
+            size = self.base[name].size
+            vals[name] = z[off : off + size].reshape(self.base[name].shape)
+            off += size
+        return vals
+
+    def terms(self, z, kinks=None):
+        vals = self.assemble(z)
+        locs = array_locs(self.case, vals, self.arg)
+        m, out = self.case["arr"], []
+        for name in ARRAY_LEAVES[self.case["kind"]]:
+            v, loc = vals[name], locs[name]
+            out.extend(np.ravel(_np_logpdf(m["dist"], v, loc, m[ARRAY_SCALES[name]])).tolist())
+            if kinks is not None and m["dist"] == "laplace":
+                kinks.extend(np.ravel(np.abs(v - loc) / np.maximum(1.0, np.maximum(np.abs(v), np.abs(loc)))).tolist())
+        return out
+
+    def logp(self, z, kinks=None):
+        return math.fsum(self.terms(z, kinks))
+
+    grad = Ref.grad
+    kink_margin = Ref.kink_margin
+
+
 def leapfrog(ref, x0, p0, eps, L):
     """Neal (2011) eqs 5.18-5.20; returns positions x_0..x_L, end momentum and the gradients at x_0..x_L"""
     x, p = list(x0), list(p0)
@@ -215,11 +278,67 @@ def build_scan(case):
     return kernel.scan(n=sc["n"])
 
 
+def build_array(case):
+    """models whose selected choices have >= 2 dimensions"""
+    import genjax
+    import jax.numpy as jnp
+
+    m, kind = case["arr"], case["kind"]
+    n, k = m["shape"]
+    dist = genjax.normal if m["dist"] == "normal" else genjax.laplace
+    pattern = (jnp.arange(n)[:, None] - jnp.arange(k)[None, :]).astype(jnp.float32)
+    if kind == "tensor":
+
+        @genjax.gen
+        def tensor(arg):
+            x = dist(m["b"] + m["a"] * arg + m["d"] * pattern, m["s1"]) @ "x"
+            _ = dist(m["c"] * x, m["s2"]) @ "y"
+            z = dist(m["w"] * jnp.sum(x), m["s3"]) @ "z"
+            return z
+
+        return tensor
+    if kind == "vmap":
+
+        @genjax.gen
+        def row(mu):
+            x = dist(mu, m["s1"]) @ "x"
+            y = dist(m["c"] * x, m["s2"]) @ "y"
+            return y
+
+        return row.vmap(in_axes=(0,))
+
+    @genjax.gen
+    def kernel(carry, _):
+        x = dist(m["a"] * carry + m["b"], m["s1"]) @ "x"
+        _ = dist(m["c"] * x, m["s2"]) @ "y"
+        return x, None
+
+    return kernel.scan(n=n)
+
+
+def array_args(case, arg):
+    """model arguments of the array kinds (arg is a jax scalar)"""
+    import jax.numpy as jnp
+
+    n, k = case["arr"]["shape"]
+    if case["kind"] == "tensor":
+        return (arg,)
+    if case["kind"] == "vmap":
+        pattern = (jnp.arange(n)[:, None] - jnp.arange(k)[None, :]).astype(jnp.float32)
+        return (arg + case["arr"]["d"] * pattern,)
+    return (arg + 0.25 * jnp.arange(k, dtype=jnp.float32), None)
+
+
 def build_selection(case):
     from genjax import Selection as S
 
     if case["kind"] == "scan":
         return S.at["x"]
+    if case["kind"] in ARRAY_KINDS:
+        out = S.at[case["select"][0]]
+        for name in case["select"][1:]:
+            out = out | S.at[name]
+        return out
     n = len(case["sites"])
     sel = case["select"]
     form = case["sel_form"]
@@ -242,7 +361,10 @@ class Program:
 
     def __init__(self, case):
         self.case = case
-        self.model = build_scan(case) if case["kind"] == "scan" else build_static(case)
+        if case["kind"] in ARRAY_KINDS:
+            self.model = build_array(case)
+        else:
+            self.model = build_scan(case) if case["kind"] == "scan" else build_static(case)
         self.selection = build_selection(case)
         self._edits = {}
         self._sim = None
@@ -255,7 +377,9 @@ class Program:
         import jax.numpy as jnp
 
         if self._sim is None:
-            if self.case["kind"] == "scan":
+            if self.case["kind"] in ARRAY_KINDS:
+                self._sim = jax.jit(lambda k, a: self.model.simulate(k, array_args(self.case, a)))
+            elif self.case["kind"] == "scan":
                 self._sim = jax.jit(lambda k, a: self.model.simulate(k, (a, None)))
             else:
                 self._sim = jax.jit(lambda k, a: self.model.simulate(k, (a,)))
@@ -280,6 +404,10 @@ class Program:
     def values(self, tr):
         """raw numpy values: static -> list per site; scan -> (xs, ys)"""
         chm = tr.get_choices()
+        if self.case["kind"] == "tensor":
+            return {name: np.asarray(chm[name]) for name in ARRAY_LEAVES["tensor"]}
+        if self.case["kind"] in ARRAY_KINDS:
+            return {name: np.asarray(chm[:, name]) for name in ARRAY_LEAVES[self.case["kind"]]}
         if self.case["kind"] == "scan":
             return (np.asarray(chm[:, "x"]), np.asarray(chm[:, "y"]))
         return [np.asarray(chm[addr(i)]) for i in range(len(self.case["sites"]))]
@@ -374,13 +502,44 @@ def scan_case(draw, r=0):
     }
 
 
+@st.composite
+def array_case(draw, kind, r=0):
+    choices = [["x"], ["x", "y"], ["y"]] + ([["x", "z"], ["x", "y", "z"]] if kind == "tensor" else [])
+    dist = draw(st.sampled_from(_rot(["normal", "laplace", "normal"], r)))
+    # laplace (piecewise-linear log density): wide scales, so that short trajectories often stay on
+    # one side of every kink (constant gradient: unaffected by the open stale-gradient finding)
+    lo, hi = (0.4, 2.0) if dist == "normal" else (1.5, 3.5)
+    return {
+        "kind": kind,
+        "family": "array",
+        "arr": {
+            "shape": [draw(st.sampled_from(_rot([3, 2], r))), draw(st.sampled_from(_rot([2, 3], r)))],
+            "dist": dist,
+            "a": draw(_q(-1.0, 1.0)),
+            "b": draw(_q(-1.0, 1.0)),
+            "c": draw(_q(0.5, 1.5)),
+            "d": draw(_q(-0.5, 0.5)),
+            "w": draw(_q(-0.6, 0.6)),
+            "s1": draw(_q(lo, hi)),
+            "s2": draw(_q(lo, hi)),
+            "s3": draw(_q(lo, hi)),
+        },
+        "select": draw(st.sampled_from(_rot(choices, r))),
+        "sel_form": "or",
+        "safe": False,
+    }
+
+
 EPS_GRID = [0.01, 0.02, 0.03, 0.05, 0.08, 0.1, 0.12, 0.15, 0.2, 0.25]
 
 
 @st.composite
 def case_strategy(draw, allow_discrete_selected, max_runs, r=0, key_salt=0):
-    kind = draw(st.sampled_from(_rot(["static", "static", "scan", "static", "static"], r)))
-    case = draw(scan_case(r) if kind == "scan" else static_case(allow_discrete_selected, r))
+    kind = draw(st.sampled_from(_rot(["static", "tensor", "scan", "static", "scanvec", "static", "vmap"], r)))
+    if kind in ARRAY_KINDS:
+        case = draw(array_case(kind, r))
+    else:
+        case = draw(scan_case(r) if kind == "scan" else static_case(allow_discrete_selected, r))
     case["L"] = draw(st.sampled_from(_rot([3, 2, 1, 4, 2, 6, 3, 5], r)))
     # the (L-1)-step run gives the end momentum of the produced trajectory (one more compiled program)
     case["with_prev"] = True if case["L"] <= 2 else draw(st.booleans())
@@ -404,12 +563,16 @@ def _f(x):
 
 
 def _selected_z(case, vals):
+    if case["kind"] in ARRAY_KINDS:
+        return [float(v) for name in case["select"] for v in np.ravel(vals[name]).astype(np.float64)]
     if case["kind"] == "scan":
         return [float(v) for v in np.asarray(vals[0], dtype=np.float64)]
     return [_f(vals[i]) for i in case["select"]]
 
 
 def _as_floats(case, vals):
+    if case["kind"] in ARRAY_KINDS:
+        return {name: np.asarray(v, dtype=np.float64) for name, v in vals.items()}
     if case["kind"] == "scan":
         return ([float(v) for v in vals[0].astype(np.float64)], [float(v) for v in vals[1].astype(np.float64)])
     return [_f(v) for v in vals]
@@ -420,6 +583,8 @@ def _ulp(*vs):
 
 
 def _extreme(case, base, arg):
+    if case["kind"] in ARRAY_KINDS:
+        return not all(np.all(np.isfinite(v)) and np.all(np.abs(v) < 100) for v in base.values())
     if case["kind"] == "scan":
         return not all(math.isfinite(v) and abs(v) < 100 for v in base[0] + base[1])
     if not all(math.isfinite(v) and abs(v) < 100 for v in base):
@@ -430,7 +595,13 @@ def _extreme(case, base, arg):
 def _check_trace(case, prog, ref, old_vals, new_tr, L, tag):
     """everything about the new trace that does not involve the dynamics"""
     new_vals = prog.values(new_tr)
-    if case["kind"] == "scan":
+    if case["kind"] in ARRAY_KINDS:
+        for name in ARRAY_LEAVES[case["kind"]]:
+            if new_vals[name].shape != old_vals[name].shape:
+                raise Violation("leaf-shape", f"{tag}: leaf {name} changed shape {old_vals[name].shape} -> {new_vals[name].shape}", case)
+            if name not in case["select"] and old_vals[name].tobytes() != new_vals[name].tobytes():
+                raise Violation("unselected-moved", f"{tag}: unselected leaf {name} changed {old_vals[name]} -> {new_vals[name]}", case)
+    elif case["kind"] == "scan":
         if old_vals[1].tobytes() != new_vals[1].tobytes():
             raise Violation("unselected-moved", f"{tag}: unselected scan address y changed {old_vals[1]} -> {new_vals[1]}", case)
     else:
@@ -453,7 +624,12 @@ def _check_trace(case, prog, ref, old_vals, new_tr, L, tag):
     if abs(got - want) > atol + 2e-4 * abs(want):
         raise Violation("new-score", f"{tag}: score of the new trace {got!r} but log p(new choices) = {want!r}", case)
     ret = new_tr.get_retval()
-    if case["kind"] == "scan":
+    if case["kind"] in ARRAY_KINDS:
+        got_ret = np.asarray(ret[0] if case["kind"] == "scanvec" else ret)
+        want_ret = {"tensor": new_vals.get("z"), "vmap": new_vals["y"], "scanvec": new_vals["x"][-1]}[case["kind"]]
+        if got_ret.tobytes() != np.asarray(want_ret).tobytes():
+            raise Violation("new-retval", f"{tag}: return value {got_ret} but the new choices give {want_ret}", case)
+    elif case["kind"] == "scan":
         if np.asarray(ret[0]).tobytes() != new_vals[0][-1].tobytes():
             raise Violation("new-retval", f"{tag}: scan carry-out {ret[0]} but last x is {new_vals[0][-1]}", case)
     elif np.asarray(ret).tobytes() != new_vals[case["ret"]].tobytes():
@@ -469,7 +645,7 @@ def check_run(case, prog, run, ctx=None, force_full=False):
     tr = prog.simulate(run["k_sim"], arg)
     old_vals = prog.values(tr)
     base = _as_floats(case, old_vals)
-    ref = Ref(case, arg, base)
+    ref = (ArrayRef if case["kind"] in ARRAY_KINDS else Ref)(case, arg, base)
     x0 = _selected_z(case, old_vals)
     if _extreme(case, base, arg):
         # heavy-tailed draws (cauchy) that saturate float32 sigmoid / lose all precision: not compared
@@ -517,6 +693,8 @@ def check_run(case, prog, run, ctx=None, force_full=False):
         )
         if ctx is not None:
             ctx.count("alpha-checked:L>=2" if k >= 2 else "alpha-checked:L=1")
+            if case["kind"] in ARRAY_KINDS:
+                ctx.count("leaf-ndim>=2:alpha-checked:L>=2" if k >= 2 else "leaf-ndim>=2:alpha-checked:L=1")
         if abs(alphas[k] - want) > tol:
             raise Violation(
                 "alpha",
@@ -555,6 +733,8 @@ def check_run(case, prog, run, ctx=None, force_full=False):
             sens_k += abs((kin(pp) - kin(alt_p)) - (kin(p0) - kin(ref_p)))
         if ctx is not None:
             ctx.count("trajectory-compared:L>=2")
+            if case["kind"] in ARRAY_KINDS:
+                ctx.count("leaf-ndim>=2:trajectory-compared:L>=2")
             if not const_grad:
                 ctx.count("trajectory-compared:varying-gradient")
         for j in range(len(x0)):
@@ -643,6 +823,15 @@ def is_nontrivial(case):
 
 def classes_of(case):
     cl = [f"kind:{case['kind']}", f"family:{case['family']}", f"L:{case['L']}", f"sel-form:{case['sel_form']}"]
+    if case["kind"] in ARRAY_KINDS:
+        n, k = case["arr"]["shape"]
+        cl += [
+            "leaf-ndim>=2",
+            "leaf-ndim>=2:L=1" if case["L"] == 1 else "leaf-ndim>=2:L>=2",
+            f"leaf-ndim>=2:{case['arr']['dist']}",
+            f"leaf-ndim>=2:shape-{n}x{k}",
+            f"leaf-ndim>=2:selected-leaves-{len(case['select'])}",
+        ]
     if case["kind"] == "static":
         n, sel = len(case["sites"]), case["select"]
         cl.append(f"selected:{len(sel)}")
@@ -770,7 +959,7 @@ def run(ctx):
         check_case(case, ctx)
 
     strat = case_strategy(allow_disc, ctx.pick(3, 4), r=ctx.shard + 5 * ctx.seed, key_salt=ctx.shard_seed("keys"))
-    ctx.run_hypothesis(strat, chk, ctx.pick(4, 20), salt="main")
+    ctx.run_hypothesis(strat, chk, ctx.pick(4, 24), salt="main")
 
 
 def replay(ctx, case):
